@@ -55,18 +55,42 @@ def _v_z(pts, c, a):
     return np.where(r < 1e-9, 0.0, out)
 
 
+_DIRS = {"z": (0.0, 0.0, 1.0), "x": (1.0, 0.0, 0.0), "y": (0.0, 1.0, 0.0), "g": (0.48, -0.6, 0.64)}
+
+
+def _rot(pts, c, kind):
+    """Rotate coordinates about the centre so that the p-type axis `kind` becomes the z axis."""
+    n = np.array(_DIRS[kind])
+    d = pts - c
+    if kind == "z":
+        return d
+    # z' = n.d ; only z' and |d| enter the p-type formulas
+    out = np.zeros_like(d)
+    zp = d @ n
+    perp = d - np.outer(zp, n)
+    out[:, 2] = zp
+    out[:, 0] = np.linalg.norm(perp, axis=1)
+    return out
+
+
 def _density(spec, pts, c):
-    """spec = list of [kind, coeff, alpha]; returns (rho on pts)."""
+    """spec = list of [kind, coeff, alpha]; kind 's' or a p-type axis 'z','x','y','g' (generic direction)."""
     out = np.zeros(len(pts))
     for kind, co, a in spec:
-        out = out + co * (_rho_s(pts, c, a) if kind == "s" else _rho_z(pts, c, a))
+        if kind == "s":
+            out = out + co * _rho_s(pts, c, a)
+        else:
+            out = out + co * _rho_z(_rot(pts, c, kind), np.zeros(3), a)
     return out
 
 
 def _potential(spec, pts, c):
     out = np.zeros(len(pts))
     for kind, co, a in spec:
-        out = out + co * (_v_s(pts, c, a) if kind == "s" else _v_z(pts, c, a))
+        if kind == "s":
+            out = out + co * _v_s(pts, c, a)
+        else:
+            out = out + co * _v_z(_rot(pts, c, kind), np.zeros(3), a)
     return out
 
 
@@ -374,7 +398,7 @@ class PoissonSeamEngine:
         def dens():
             out = [["s", round(rng.uniform(0.3, 1.5), 3), round(rng.uniform(1.0, 4.0), 3)] for _ in range(rng.randint(1, 2))]
             if ptype and rng.random() < 0.7:
-                out.append(["z", round(rng.uniform(0.2, 0.8), 3), round(rng.uniform(1.0, 2.5), 3)])
+                out.append([rng.choice(["z", "x", "y", "g"]), round(rng.uniform(0.2, 0.8), 3), round(rng.uniform(1.0, 2.5), 3)])
             return out
 
         d = {"rho1": dens(), "rho2": dens(), "a": round(rng.uniform(0.3, 2.0), 3), "b": round(rng.uniform(-1.0, 1.5), 3)}
